@@ -373,9 +373,184 @@ def r18_5(prog: Program, chk: Check) -> None:
     )
 
 
+# ------------------------------------------------------------------- R18.6
+def _mk_file(top, ov_a, ov_ab, name, extend: Optional[str], extend_first: bool, ov_order: int):
+    """One configuration file as the dict tomli would return for [tool.pyanalyze]."""
+    d: Dict[str, object] = {}
+    if extend is not None and extend_first:
+        d["extend_config"] = extend
+    if top is not None:
+        d[name] = top
+    ovs = []
+    if ov_a is not None:
+        ovs.append({"module": "a", name: ov_a})
+    if ov_ab is not None:
+        ovs.append({"module": "a.b", name: ov_ab})
+    if ov_order:
+        ovs.reverse()
+    if ovs:
+        d["overrides"] = ovs
+    if extend is not None and not extend_first:
+        d["extend_config"] = extend
+    return d
+
+
+def _config_stacks(kind: str, thorough: bool):
+    """(files, cmdline, option name, default, is_list) for every stack of the domain."""
+    import itertools
+
+    if kind in ("flag", "num"):
+        vals = {"flag": (None, True, False), "num": (None, 1, 2)}[kind]
+        cmds = [{}] + [{kind: v} for v in vals[1:]]
+        per_file = list(itertools.product(vals, vals, vals))
+        last_file = per_file if thorough else [(v, None, None) for v in vals]
+        default = {"flag": False, "num": 7}[kind]
+        for depth in (1, 2, 3):
+            for combo in itertools.product(*([per_file] * (depth - 1) + [last_file if depth == 3 else per_file])):
+                for extend_first in ((False, True) if depth > 1 else (False,)):
+                    for ov_order in (0, 1):
+                        if ov_order and not any(c[1] is not None and c[2] is not None for c in combo):
+                            continue
+                        files = [
+                            _mk_file(c[0], c[1], c[2], kind, f"file{i + 1}" if i + 1 < depth else None, extend_first, ov_order)
+                            for i, c in enumerate(combo)
+                        ]
+                        for cmd in cmds:
+                            yield files, cmd, kind, default, False
+    elif kind == "names":
+        per_file = list(itertools.product((False, True), repeat=3))
+        for depth in (1, 2, 3):
+            for combo in itertools.product(*([per_file] * depth)):
+                for extend_first in ((False, True) if depth > 1 else (False,)):
+                    files = [
+                        _mk_file([f"t{i}"] if c[0] else None, [f"a{i}"] if c[1] else None, [f"ab{i}"] if c[2] else None, "names", f"file{i + 1}" if i + 1 < depth else None, extend_first, 0)
+                        for i, c in enumerate(combo)
+                    ]
+                    for cmd in ({}, {"names": ["cmd"]}):
+                        yield files, cmd, "names", [], True
+    elif kind == "disable_all":
+        sect = list(itertools.product((None, True, False), (None, True, False)))  # (disable_all, code_a)
+        for (da0, c0), (da1, c1) in itertools.product(sect, sect):
+            top: Dict[str, object] = {}
+            if da0 is not None:
+                top["disable_all"] = da0
+            if c0 is not None:
+                top["code_a"] = c0
+            ov: Dict[str, object] = {"module": "a"}
+            if da1 is not None:
+                ov["disable_all"] = da1
+            if c1 is not None:
+                ov["code_a"] = c1
+            for base in (None, True, False):  # an extended file's top-level setting
+                f0 = dict(top)
+                if len(ov) > 1:
+                    f0["overrides"] = [ov]
+                files = [f0]
+                if base is not None:
+                    f0["extend_config"] = "file1"
+                    files.append({"code_a": base})
+                for code in ("code_a", "code_b"):
+                    yield files, {}, code, True, False
+
+
+def _config_chunk(args):
+    kind, part, nparts, thorough = args
+    from ..model import Program as _P
+    from . import config_model as cfgm
+
+    model = cfgm.ConfigModel(_P())
+    n = 0
+    bad = []
+    for idx, (files, cmd, name, default, is_list) in enumerate(_config_stacks(kind, thorough)):
+        if idx % nparts != part:
+            continue
+        queries = [(name, mod) for mod in cfgm.MODULES]
+        got = model.effective(files, cmd, queries)
+        n += len(queries)
+        for q in queries:
+            want = cfgm.reference(files, cmd, name, q[1], default, is_list)
+            g = got.get(q) if isinstance(got, dict) else got
+            if g != want:
+                bad.append((len(repr(files)) + len(repr(cmd)), {"files": files, "command_line": cmd, "option": name, "module": ".".join(q[1]) or "<top>", "effective": g, "documented": want}))
+                break
+    bad.sort(key=lambda t: t[0])
+    return kind, n, len(bad), [b for _, b in bad[:4]]
+
+
+REJECTED_CONFIGS = [
+    ("unknown-key", [{"no_such_option": True}]),
+    ("bool-given-int", [{"flag": 1}]),
+    ("int-given-str", [{"num": "3"}]),
+    ("int-given-bool", [{"num": True}]),
+    ("list-given-str", [{"names": "x"}]),
+    ("list-with-non-str", [{"names": ["x", 1]}]),
+    ("nested-overrides", [{"overrides": [{"module": "a", "overrides": [{"module": "a.b", "flag": True}]}]}]),
+    ("override-without-module", [{"overrides": [{"flag": True}]}]),
+    ("override-not-a-table", [{"overrides": ["a"]}]),
+    ("overrides-not-a-list", [{"overrides": {"module": "a"}}]),
+    ("top-level-module-key", [{"module": "a", "flag": True}]),
+    ("extend-config-not-a-string", [{"extend_config": 3}]),
+    ("extend-config-missing-file", [{"extend_config": "nowhere"}]),
+    ("recursive-inclusion-direct", [{"extend_config": "file0"}]),
+    ("recursive-inclusion-indirect", [{"extend_config": "file1"}, {"extend_config": "file0"}]),
+    ("disable-all-not-bool", [{"disable_all": "yes"}]),
+    ("unknown-key-in-override", [{"overrides": [{"module": "a", "no_such_option": 1}]}]),
+    ("unknown-key-in-extended-file", [{"extend_config": "file1"}, {"no_such_option": 1}]),
+]
+
+
+def r18_6(prog: Program, chk: Check) -> None:
+    import multiprocessing as mp
+    import os as _os
+
+    from . import config_model as cfgm
+
+    thorough = chk.tier == "thorough" and not _os.environ.get("VERIF_SELFTEST")
+    chk.rule(
+        "R18.6",
+        "configuration layering as a finite model: parse_config_file, _parse_config_section, the option classes' parse / is_applicable_to / sort_key / "
+        "get_value_from_instances and Options.from_option_list / for_module / get_value_for are interpreted from their AST on stacks of up to 3 chained files "
+        "(top-level value, overrides for a and a.b in both list orders, extend_config before or after the settings), every command-line value and six queried "
+        "modules; the effective value equals the documented layering for a boolean, an integer and a concatenated list option and for disable_all; every "
+        "malformed configuration of a fixed list raises InvalidConfigOption",
+        floor=20,
+    )
+    procs = 2 if _os.environ.get("VERIF_SELFTEST") else min(16, _os.cpu_count() or 1)
+    kinds = ["flag", "names", "disable_all"] + (["num"] if thorough else [])
+    tasks = []
+    for k in kinds:
+        np_ = procs * 2 if k in ("flag", "num") else max(1, procs // 2)
+        tasks += [(k, i, np_, thorough) for i in range(np_)]
+    with mp.get_context("fork").Pool(procs) as pl:
+        results = pl.map(_config_chunk, tasks)
+    site = prog.site("options", prog.func("options", "_parse_config_section"))
+    agg: Dict[str, List[object]] = {}
+    for kind, n, nbad, wit in results:
+        a = agg.setdefault(kind, [0, 0, []])
+        a[0] += n  # type: ignore[operator]
+        a[1] += nbad  # type: ignore[operator]
+        a[2] = (a[2] + wit)[:4]  # type: ignore[operator]
+    total = 0
+    label = {"flag": "boolean-option", "num": "integer-option", "names": "concatenated-list-option", "disable_all": "disable_all"}
+    for kind, (n, nbad, wit) in sorted(agg.items()):
+        total += int(n)  # type: ignore[arg-type]
+        chk.ob("R18.6", f"options::layering-model::effective-value::{label[kind]}", nbad == 0, site,
+               f"{n} lookups, {nbad} stacks with a value that differs from the documented layering" + (f"; smallest: {wit[0]}" if wit else ""), witness=wit)  # type: ignore[index]
+    model = cfgm.ConfigModel(prog)
+    for name, files in REJECTED_CONFIGS:
+        total += 1
+        got = model.effective(files, {}, [("flag", ())])
+        ok = isinstance(got, tuple) and got[0] == "error" and got[1] == "InvalidConfigOption"
+        chk.ob("R18.6", f"options::layering-model::rejects::{name}", ok, site,
+               f"configuration {files} must raise InvalidConfigOption; the model run gives {got if isinstance(got, tuple) else 'a value (accepted)'}")
+    chk.model_evaluations += total
+    chk.analysed["config_model"] = {"lookups": total, "thorough_domain": thorough}
+
+
 def run(prog: Program, chk: Check) -> None:
     r18_1(prog, chk)
     r18_2(prog, chk)
     r18_3(prog, chk)
     r18_4(prog, chk)
     r18_5(prog, chk)
+    r18_6(prog, chk)
